@@ -288,3 +288,6 @@ if bad: reproduced(str(bad))
 not_reproduced()
 """
     return None
+
+# level text addendum (cases added after the seeded-change rounds)
+LEVEL_TEXT = LEVEL_TEXT + " Also: acquired vs saved nidq layouts, recent-style headers, streams saved without a sync channel, '%g'-formatted lists."
